@@ -346,7 +346,8 @@ pub fn model(case: &Case, source: &str) -> ModelRun {
 
 struct World {
     case: Case,
-    expected: Vec<Call>,
+    /// None: no online comparison (used by C13, whose reference is the unhalted run)
+    expected: Option<Vec<Call>>,
     next: usize,
     visits: Vec<usize>,
     handler_visits: usize,
@@ -369,6 +370,19 @@ fn to_result(a: Ans) -> CommandResult {
 }
 
 fn observe(name: &str, ctx: &CommandInvocationContext) {
+    let unchecked = WORLD.with(|w| {
+        let mut w = w.borrow_mut();
+        let w = w.as_mut().unwrap();
+        if w.expected.is_none() {
+            w.next += 1;
+            true
+        } else {
+            false
+        }
+    });
+    if unchecked {
+        return;
+    }
     let vars: BTreeMap<String, String> = ctx.variables.iter().map(|(k, v)| (k.clone(), v.clone())).collect();
     let got = Call { name: name.to_string(), args: ctx.arguments.clone(), vars };
     let problem = WORLD.with(|w| {
@@ -376,7 +390,7 @@ fn observe(name: &str, ctx: &CommandInvocationContext) {
         let w = w.as_mut().unwrap();
         let idx = w.next;
         w.next += 1;
-        match w.expected.get(idx) {
+        match w.expected.as_ref().unwrap().get(idx) {
             Some(exp) if *exp == got => None,
             Some(exp) => Some(format!("invocation #{}: real {:?} / model {:?}", idx, got, exp)),
             None => Some(format!("invocation #{}: real {:?} / model expects no further invocation", idx, got)),
@@ -472,7 +486,7 @@ pub fn build_context(case: &Case) -> Context {
     context
 }
 
-pub fn install_world(case: &Case, expected: Vec<Call>) {
+pub fn install_world(case: &Case, expected: Option<Vec<Call>>) {
     WORLD.with(|w| {
         *w.borrow_mut() = Some(World {
             case: case.clone(),
@@ -668,7 +682,7 @@ impl Prop for C03 {
         let run_dir = "run".to_string();
         let source = source_of(&case, env, &run_dir);
         let m = model(&case, &source);
-        install_world(&case, m.calls.clone());
+        install_world(&case, Some(m.calls.clone()));
         let res = std::panic::catch_unwind(std::panic::AssertUnwindSafe(|| run_real(&case, env, &run_dir, None)));
         for p in &m.probes {
             sim::with_core(|c| c.probe(p));
